@@ -236,6 +236,7 @@ func (c12) Run(c *Ctx, i int) CaseResult {
 		key := fmt.Sprintf("conc-%d", i)
 		var wg sync.WaitGroup
 		results := make([]string, 8)
+		tConc := time.Now()
 		for k := 0; k < 8; k++ {
 			wg.Add(1)
 			go func(k int) {
@@ -260,7 +261,13 @@ func (c12) Run(c *Ctx, i int) CaseResult {
 		rc := &gateway.RequestContext{Context: context.Background(), Query: "", CacheKey: key}
 		plans, perr := cached.GW.GetPlans(rc)
 		if perr != nil {
-			bad("L0.cache-concurrent", "after 8 concurrent misses the key is not cached", "plan", perr.Error())
+			// an entry lives for one TTL after its last use: on a loaded machine the eight executions alone can take
+			// longer than that, and then the entry is rightly gone (not a verdict on the cache)
+			if time.Since(tConc) < ttl/2 {
+				bad("L0.cache-concurrent", "after 8 concurrent misses the key is not cached", "plan", perr.Error())
+			} else {
+				res.Features = append(res.Features, "concurrent-misses-inconclusive-too-slow")
+			}
 		} else if d, _ := cached.GW.Execute(rc, plans); Canon(d) != twinData[text] {
 			bad("L0.cache-concurrent", "the entry kept after concurrent misses is not the plan of the text", twinData[text], Canon(d))
 		}
